@@ -8,6 +8,9 @@ CLAIMED = {
  "C01": dict(level="exploration", tech="deterministic simulation: seeded interleavings of SSO / login-completion / callback tasks parked at every storage call, storage-fault injection, reference session model at the storage linearisation point",
    text="Seeded search over whole-system executions: several sessions, callbacks fired before/while/after login completion, duplicated, with foreign/unknown ids, under storage errors, key faults, request deletion, replica restarts and clock jumps; every callback reply is decoded independently and judged against the snapshot the storage handed to that very task. Sampling, not proof; exploration is the right level because the property quantifies over histories and interleavings that only a history-carrying simulator reaches.",
    ref="§5 C01", note="Trusts synctest's fake clock and quiescence detection, the simulator's storage semantics (immutable snapshot per AuthRequestByID call), and the independent XML/HTML decoders."),
+ "C02": dict(level="exploration", tech="deterministic simulation: a simulated browser resolves where every reply would send it (independent HTML5 form reader / Location parser) while an attacker rewrites requests in flight and SPs re-register with different endpoints between SSO and callback; transport invariant 'target ∈ registered endpoints of the right SP / the persisted pair'",
+   text="Seeded search over SSO, callback and logout replies for SPs with 1–4 ACS and 0–3 SLO entries whose URLs carry query strings and metacharacters; requests name foreign consumer URLs, indices, bindings, destinations and extra parameters; SP re-registration (moved ACS/SLO URLs, reordered entries) races the flows. The pair handed to CreateAuthRequest must be one registered entry; callback replies must use exactly the stored pair; error and logout replies must target a registered URL or nothing; no target may come from the request.",
+   ref="§5 C02", note="Which registered entry is selected is C16 (not applicable here); only membership and pair consistency are checked. URL equality is modulo one level of percent-encoding (html/template normalises the form action)."),
  "C03": dict(level="exploration", tech="deterministic simulation: whole SSO→login→callback flows for interleaved sessions under a simulated clock (exact instants, jumps, advance while a request is parked), per-run provider configuration; independently parsed assertion compared field by field with the storage record handed to that task",
    text="Seeded search over flows in both bindings with stored-request and user fields drawn from XML-legal alphabets (metacharacters, CR/LF/TAB, blanks, non-BMP), several sessions in flight, replica switches and key rotation. Every Success reply is decoded by an independent HTML/redirect/XML reader and compared with the snapshot, user and entity the simulated storage returned to that very request; the validity window is checked against the simulated-time interval of the call (exact when the clock did not move).",
    ref="§5 C03", note="Issuer is compared with the simulator's configuration model of the entity ID (C11 checks that model against served metadata). Attribute order is compared as a multiset because the library iterates a map."),
@@ -29,6 +32,15 @@ CLAIMED = {
  "C10": dict(level="fault_enumeration", tech="deterministic simulation with exhaustive single- and pair-fault injection at every storage call of every endpoint workload (with a concurrent bystander request), followed by seeded random fault schedules and a post-fault recovery phase",
    text="Stage 1 enumerates completely, for a fixed catalogue (4 provider configurations × 12 workloads × 3 bystander settings), every storage call × every fault kind the property names (error; for the key getters nil record, key without certificate, certificate without key, empty certificate; unusable algorithm as configuration), singly and in all pairs; stage 2 samples random worlds and fault schedules. Each faulted request must end in HTTP 5xx or a non-Success SAML message without subject, attribute, signature or user marker, without panic and without later persistence; the bystander's reply must equal its fault-free reply; afterwards a recovery flow must succeed.",
    ref="§5 C10", note="The enumeration is complete for the catalogue only; arbitrary configurations are sampled. Trusts the simulator's fault injector and reply decoders."),
+ "C11": dict(level="exploration", tech="deterministic simulation: per-run random provider configuration and request hosts; a simulated SP bootstraps itself from the metadata document served earlier in the same run (entityID, endpoint locations, signing certificate, WantAuthnRequestsSigned), addresses requests to the advertised locations and compares every later reply and the certificate endpoint with what was advertised, across key rotation",
+   text="Seeded search over issuer modes (static with/without path and trailing slash, Host-, Forwarded- and custom-header-derived), endpoint configurations (default, custom path with/without leading slash, external URL), metadata path, WantAuthRequestsSigned values and request hosts. Agreement is checked between independently observed things: served entityID vs. Issuer of every protocol reply for the same host, advertised location vs. the handler that answers there, advertised certificate vs. certificate endpoint vs. key version in use, advertised WantAuthnRequestsSigned vs. whether unsigned conformant requests are refused.",
+   ref="§5 C11", note="Endpoints configured by external URL are not probed (no statement about routing). The signing key version is read from the storage call the request made."),
+ "C12": dict(level="exploration", tech="deterministic simulation: SOAP attribute queries from registered / unregistered / tampering requesters under storage faults and key rotation between the handler's two key reads; disclosure invariant over the recorded history plus an independent filter model",
+   text="Seeded search; a reply that carries any attribute value or per-user marker must have a registered Issuer, no non-verifying signature value, and an absent or advertised Destination; then InResponseTo, audience, subject resolution and the (Name, NameFormat) filter are compared, as sets, with an independent model of the user record, and the assertion must carry exactly one enveloped signature referencing its ID.",
+   ref="§5 C12", note="Whether the assertion signature verifies is C04's question. Signed queries are always refused on the current tree (known finding under C07), so the positive signature branch is not reachable."),
+ "C13": dict(level="exploration", tech="deterministic simulation: LogoutRequests stamped by skewed SP clocks and delivered at instants aimed at IssueInstant / NotOnOrAfter under the simulated clock, SP re-registration / deletion racing the request's storage call; independent evaluator + delivery-target invariant",
+   text="Seeded search over logout requests (registered / unregistered / absent issuer, lexical forms of timestamps, both transport encodings, hard RelayState) and SP registrations with 0..n SingleLogoutService entries. Success implies decodable, registered issuer (in the snapshot the request saw), IssueInstant <= t_return and NotOnOrAfter > t_invoke; decodable implies InResponseTo echo; Issuer, target (first registered location or body), Destination and RelayState are compared with the snapshot.",
+   ref="§5 C13", note="Known findings: encoding/xml leniencies (not well-formed requests answered with Success) and CR normalisation of RelayState in the HTML form."),
 }
 
 NOT_APPLICABLE = {
